@@ -1,0 +1,67 @@
+//go:build verif
+
+package task
+
+import (
+	"github.com/AliceO2Group/Control/common/utils/uid"
+	"github.com/AliceO2Group/Control/core/controlcommands"
+	"github.com/AliceO2Group/Control/core/task/taskclass"
+	mesos "github.com/mesos/mesos-go/api/v1/lib"
+)
+
+// Verification harness only (build tag `verif`), used by /verif property C13.
+// The hooks below only give access to unexported entry points; they contain no
+// logic of their own beyond wiring a Manager without a Mesos connection.
+
+// VerifC13NewManager returns a Manager with an empty roster and class store
+// whose command queue hands every single-target command to `send` (in place of
+// schedulerState.sendCommand, which would issue the Mesos MESSAGE call).
+func VerifC13NewManager(send controlcommands.SendCommandFunc) *Manager {
+	m := &Manager{
+		classes: taskclass.NewClasses(),
+		roster:  newRoster(),
+	}
+	servent := controlcommands.NewServent(send)
+	m.cq = controlcommands.NewCommandQueue(servent)
+	m.cq.Start()
+	m.schedulerState = &schedulerState{
+		executor:     &mesos.ExecutorInfo{Command: &mesos.CommandInfo{}},
+		servent:      servent,
+		commandqueue: m.cq,
+		taskman:      m,
+	}
+	return m
+}
+
+// VerifC13Stop stops the command queue goroutine started by VerifC13NewManager.
+func (m *Manager) VerifC13Stop() { m.cq.Stop() }
+
+// VerifC13AddClass registers a task class under the given key.
+func (m *Manager) VerifC13AddClass(key string, class *taskclass.Class) {
+	m.classes.UpdateClass(key, class)
+}
+
+// VerifC13Launch does for one (offer, descriptor) pair what the RESOURCE OFFERS
+// handler does after constraints are satisfied: wants/limits lookup, the
+// Satisfy check, then the real makeTaskForMesosResources on the resources still
+// available in the offer. `remaining` is shared between the calls for one offer
+// exactly as remainingResourcesInOffer is.
+func (m *Manager) VerifC13Launch(offer *mesos.Offer, descriptor *Descriptor, remaining mesos.Resources,
+	executorId string, envId uid.ID) (*Task, *mesos.TaskInfo, error) {
+	wants, err := m.GetWantsForDescriptor(descriptor, envId)
+	if err != nil {
+		return nil, nil, err
+	}
+	if !Resources(remaining).Satisfy(wants) {
+		return nil, nil, nil
+	}
+	limits := m.GetLimitsForDescriptor(descriptor, envId)
+	t, ti := makeTaskForMesosResources(m.schedulerState, offer, descriptor, wants, limits, remaining,
+		map[string]struct{}{}, mesos.ExecutorID{Value: executorId}, envId, "", map[mesos.OfferID]struct{}{})
+	return t, ti, nil
+}
+
+// VerifC13Configure runs the real configureTasks.
+func (m *Manager) VerifC13Configure(envId uid.ID, tasks Tasks) error {
+	return m.configureTasks(envId, tasks)
+}
